@@ -12,7 +12,7 @@ from permuta import Perm
 from harness import tlc, util
 
 INVS = ["TypeOK", "ReplyIsListing", "EmptyPatternOnce", "ColoursOnlyRestrict", "TooLongNever", "MemoWellFormed",
-        "Monotone"]
+        "Monotone", "ItersIndependent"]
 
 
 def observe(p, q):
@@ -130,6 +130,14 @@ def run(ctx):
         raise tlc.MachineryFailure("C01 history configuration vacuous: %s" % acts)
     ctx.note("history_edges", acts)
 
+    # ---- 2b. the lazy-iterator protocol: every interleaving of two open searches (model only;
+    #          the real interleavings are recorded below and validated against these actions)
+    c = util.cfg(init="InitHist", next_="NextIter", invariants=INVS,
+                 constants={"MinPatt": 1, "MaxPatt": 2, "MinPerm": 2, "MaxPerm": 3, "Shard": 0, "NShards": 1,
+                            "Colours": "{0, 1}"})
+    r = tlc.run_tlc("C01_Search", c, workers=4, coverage=False)
+    ctx.add_tlc(r, "iterator interleavings (model)")
+
     # ---- 3. code -> spec: recorded executions validated by Trace_C01 ----------------
     rnd = util.rng(ctx, 1)
     events = []
@@ -151,6 +159,25 @@ def run(ctx):
                 continue
             res = [list(t) for t in P.occurrences_in(Perm(q))]
             events.append({"op": "Search", "q": list(q), "res": res, "tabok": True})
+        # two or three lazy searches on the same object, advanced in a random interleaving
+        if rnd.random() < 0.6 and len(p) > 0:
+            live = []
+            for _ in range(rnd.randint(2, 3)):
+                q = util.rand_perm(rnd, rnd.randint(len(p), min(maxq, len(p) + 3)))
+                events.append({"op": "OpenIter", "q": list(q)})
+                live.append((len(live) + 1, P.occurrences_in(Perm(q))))
+            while live:
+                j = rnd.randrange(len(live))
+                i, it = live[j]
+                try:
+                    t = next(it)
+                    events.append({"op": "StepIter", "it": i, "stop": False, "res": list(t)})
+                except StopIteration:
+                    events.append({"op": "StepIter", "it": i, "stop": True, "res": []})
+                    live.pop(j)
+                except Exception as e:  # pylint: disable=broad-except
+                    ctx.violation({"kind": "iterator", "p": list(p)}, "NoException", "a tuple or StopIteration", type(e).__name__)
+                    live.pop(j)
         # predicates with several patterns
         q = util.rand_perm(rnd, rnd.randint(0, maxq))
         ps = [util.rand_perm(rnd, rnd.choice([0, 1, 2, 3, 3, 4])) for _ in range(rnd.randint(1, 3))]
